@@ -6,6 +6,7 @@ index it used, `for` bodies log the bound value.  The ordered event log is compa
 trace of a reference interpreter run on the same abstract syntax tree with the same sequences.
 Negatives (unbalanced keywords) must produce a diagnostic instead of silently dropping the tail."""
 import json
+import zlib
 import os
 
 import common
@@ -185,8 +186,9 @@ def render(ast, style, rng):
                 body(st[2], d + 1)
             lines.append(ind(d) + "fi")
         elif k == "for":
-            words = " ".join(st[2]) if st[2] else "$NOPE_EMPTY"
-            lines.append(ind(d) + "for %s in %s" % (st[1], words) + ("; do" if style["then"] else ""))
+            # (a list of no words: written as nothing at all, or as an unset variable)
+            words = " ".join(st[2]) if st[2] else ("$NOPE_EMPTY" if zlib.crc32(st[1].encode()) % 2 else "")
+            lines.append(ind(d) + ("for %s in %s" % (st[1], words)).rstrip(" ") + ("; do" if style["then"] else ""))
             lines.append(ind(d + 1) + "vp_argv FOR %s $%s" % (st[1], st[1]))
             body(st[3], d + 1)
             lines.append(ind(d) + "done")
